@@ -36,6 +36,7 @@ import (
 	"runtime/debug"
 	"strconv"
 	"strings"
+	"time"
 	"unicode/utf8"
 
 	"verif/harness/core"
@@ -102,7 +103,7 @@ func fstr(b *int64) string {
 func tyOf(e sx.Sexp) *ty {
 	if !e.IsList {
 		switch e.Atom {
-		case "int", "str", "any", "undef", "bool", "flt", "num":
+		case "int", "str", "any", "undef", "bool", "flt", "num", "bin", "tsp":
 			return &ty{tag: e.Atom}
 		}
 		panic(fmt.Errorf("bad type %s", e))
@@ -119,6 +120,11 @@ func tyOf(e sx.Sexp) *ty {
 			panic(fmt.Errorf("bad type %s", e))
 		}
 		return &ty{tag: "flt", lo: fbound(a[0]), hi: fbound(a[1])}
+	case "tsp":
+		if len(a) != 2 {
+			panic(fmt.Errorf("bad type %s", e))
+		}
+		return &ty{tag: "tsp", lo: bound(a[0]), hi: bound(a[1])} // whole seconds
 	case "enum":
 		t := &ty{tag: "enum"}
 		for _, s := range a {
@@ -250,6 +256,13 @@ func (t *ty) src(env map[string]*ty, depth int) string {
 		return "Float[" + fstr(t.lo) + "," + fstr(t.hi) + "]"
 	case "num":
 		return "Numeric"
+	case "bin":
+		return "Binary"
+	case "tsp":
+		if t.lo == nil && t.hi == nil {
+			return "Timespan"
+		}
+		return "Timespan[" + bstr(t.lo) + "," + bstr(t.hi) + "]"
 	case "any":
 		return "Any"
 	case "undef":
@@ -305,6 +318,8 @@ func valOf(c px.Context, e sx.Sexp) px.Value {
 		return c.ParseType(a[0].MustStr())
 	case "bin":
 		return types.WrapBinary([]byte(a[0].MustStr()))
+	case "ts":
+		return types.WrapTimespan(time.Duration(a[0].MustInt()))
 	case "mk":
 		t := c.ParseType(a[0].MustStr())
 		vs := make([]px.Value, len(a)-1)
@@ -841,7 +856,7 @@ func execNewM(c px.Context, args []sx.Sexp) core.Result {
 	var vals []px.Value
 	for _, e := range args[1].Args() {
 		switch e.Tag() {
-		case "i", "s", "b", "u", "a", "d", "h", "f":
+		case "i", "s", "b", "u", "a", "d", "h", "f", "bin", "ts":
 		default:
 			return core.Result{Out: "bad-op", Pred: "FAIL harness-bad-op value"}
 		}
@@ -908,7 +923,7 @@ func newmRecvOf(c px.Context, e sx.Sexp) (typ, expected px.Type, src, contained 
 	var initArgs []px.Value
 	for _, a := range ia[1:] {
 		switch a.Tag() {
-		case "i", "s", "b", "u", "a", "d", "h", "f":
+		case "i", "s", "b", "u", "a", "d", "h", "f", "bin", "ts":
 		default:
 			panic(fmt.Errorf("bad init argument %s", a))
 		}
@@ -931,7 +946,7 @@ func execCoerce(c px.Context, args []sx.Sexp) core.Result {
 		return core.Result{Out: "bad-op", Pred: "FAIL harness-bad-op coerce"}
 	}
 	switch args[1].Tag() {
-	case "i", "s", "b", "u", "a", "d", "h", "f":
+	case "i", "s", "b", "u", "a", "d", "h", "f", "bin", "ts":
 	default:
 		return core.Result{Out: "bad-op", Pred: "FAIL harness-bad-op value"}
 	}
@@ -979,6 +994,10 @@ func alphaStr(v px.Value) string {
 		return "(b " + sx.B(v.Bool()) + ")"
 	case px.Float:
 		return "(f " + strconv.FormatUint(math.Float64bits(v.Float()), 10) + ")"
+	case *types.Binary:
+		return "(bin " + sx.Str(string(v.Bytes())).String() + ")"
+	case types.Timespan:
+		return "(ts " + strconv.FormatInt(int64(v.Duration()), 10) + ")"
 	case *types.UndefValue:
 		return "(u)"
 	case *types.DefaultValue:
